@@ -1019,6 +1019,12 @@ fn probe_strategy(_t: Tier) -> BoxedStrategy<Scenario> {
     gen::probe_scenario(probe_opts())
 }
 
+fn probe_churn_strategy(_t: Tier) -> BoxedStrategy<Scenario> {
+    let mut o = probe_opts();
+    o.max_steps = 400_000;
+    gen::probe_churn_scenario(o)
+}
+
 fn c18_oracle(sc: &Scenario, ex: &Execution, info: &mut CaseInfo) -> Vec<Finding> {
     let (_wrap, _overlap) = conc_common(sc, ex, info);
     let h = Hist::build(sc, ex);
@@ -1194,7 +1200,7 @@ pub fn registry() -> Vec<PropDef> {
             id: "C01",
             parts: vec![Part {
                 name: "delivery",
-                source: Source::Random { strategy: delivery_strategy, cases: cases_fn!(1500, 30000) },
+                source: Source::Random { strategy: delivery_strategy, cases: cases_fn!(6000, 250000) },
                 oracle: c01_oracle,
             }],
             rule: "generated (configuration, per-thread programs, schedule) triples executed on the serialising scheduler; non-trivial = calls of different threads overlap AND more than N values were accepted (ring wrapped) AND at least one preemption happened inside a send/receive call; distinct = distinct hash of (scenario, realised trace)",
@@ -1204,7 +1210,7 @@ pub fn registry() -> Vec<PropDef> {
             id: "C02",
             parts: vec![Part {
                 name: "order",
-                source: Source::Random { strategy: order_strategy, cases: cases_fn!(1500, 30000) },
+                source: Source::Random { strategy: order_strategy, cases: cases_fn!(6000, 250000) },
                 oracle: c02_oracle,
             }],
             rule: "as C01; oracle = acyclicity of the precedence graph (send-before-send in real time, consecutive receives of one consumer, receive-before-receive on one stream); non-trivial = overlapping calls AND (overlapping accepted sends of two producers OR >= 2 streams) AND a preemption inside a call AND >= 2 accepted values",
@@ -1214,7 +1220,7 @@ pub fn registry() -> Vec<PropDef> {
             id: "C03",
             parts: vec![Part {
                 name: "capacity",
-                source: Source::Random { strategy: capacity_strategy, cases: cases_fn!(1500, 30000) },
+                source: Source::Random { strategy: capacity_strategy, cases: cases_fn!(6000, 250000) },
                 oracle: c03_oracle,
             }],
             rule: "traffic profile with try_send bursts over requested capacities 0..9; oracle = counting bound per (accepted send, stream) plus no-loss; non-trivial = some send was refused and a later one accepted while a receive overlapped (the Full boundary was crossed under concurrency)",
@@ -1224,7 +1230,7 @@ pub fn registry() -> Vec<PropDef> {
             id: "C04",
             parts: vec![Part {
                 name: "values",
-                source: Source::Random { strategy: values_strategy, cases: cases_fn!(2000, 40000) },
+                source: Source::Random { strategy: values_strategy, cases: cases_fn!(6000, 200000) },
                 oracle: c04_oracle,
             }],
             rule: "traffic with N in {1,2,4}, 1-3 consumers per stream, shared, single-consumer and view receivers; the payload's Clone and every view closure contain a scheduling point (targeted by a dedicated schedule policy) so a clone/view can be suspended while producers wrap the ring; oracle = payload self-checks (well-formed, live in the ledger, unchanged) at the start and end of every clone/view and on every delivered value; non-trivial = some clone/view was suspended while other threads ran AND the ring wrapped",
@@ -1234,7 +1240,7 @@ pub fn registry() -> Vec<PropDef> {
             id: "C06",
             parts: vec![Part {
                 name: "quiescence",
-                source: Source::Random { strategy: quiescence_strategy, cases: cases_fn!(2000, 40000) },
+                source: Source::Random { strategy: quiescence_strategy, cases: cases_fn!(6000, 250000) },
                 oracle: c06_oracle,
             }],
             rule: "threads perform a bounded number of non-blocking sends/receives/clones/conversions and stop without draining; after joining them the controller probes single-threaded: fill to Full, drain every stream, refill (exactly N must be accepted), drain again; compared with the model computed from the recorded history; non-trivial = the probe ran AND calls overlapped AND the ring wrapped",
@@ -1244,7 +1250,7 @@ pub fn registry() -> Vec<PropDef> {
             id: "C10",
             parts: vec![Part {
                 name: "addstream",
-                source: Source::Random { strategy: addstream_strategy, cases: cases_fn!(2000, 40000) },
+                source: Source::Random { strategy: addstream_strategy, cases: cases_fn!(6000, 250000) },
                 oracle: c10_oracle,
             }],
             rule: "broadcast queues (plain and futures), N in {1,2,4}: a witness stream drained by its own thread gives the global order W; another thread calls add_stream on a parent stream (sole handle, or one of 2-3 handles with siblings receiving) while 1-2 producers wrap the ring, and the new stream is drained to the end; oracle = the new stream's sequence is a contiguous suffix W[P..] with P between the parent's position before and after the call, plus the delivery/order/capacity oracles on all streams; non-trivial = a send or sibling receive overlapped an add_stream call AND the ring wrapped",
@@ -1254,7 +1260,7 @@ pub fn registry() -> Vec<PropDef> {
             id: "C11",
             parts: vec![Part {
                 name: "removal",
-                source: Source::Random { strategy: removal_strategy, cases: cases_fn!(2000, 40000) },
+                source: Source::Random { strategy: removal_strategy, cases: cases_fn!(6000, 250000) },
                 oracle: c11_oracle,
             }],
             rule: "a slow stream (or extra handles of the only stream) whose 1-3 handles are dropped/unsubscribed by 1-2 threads while producers retry on a full queue and other streams drain; oracle = no producer is refused forever once every remaining stream has < N outstanding values (scheduler stuck state), unsubscribe return values, no loss and capacity bound on the remaining streams; non-trivial = a removal call overlapped a send attempt of another thread",
@@ -1265,7 +1271,7 @@ pub fn registry() -> Vec<PropDef> {
             parts: vec![
                 Part {
                     name: "tasks",
-                    source: Source::Random { strategy: tasks_strategy, cases: cases_fn!(2000, 40000) },
+                    source: Source::Random { strategy: tasks_strategy, cases: cases_fn!(6000, 200000) },
                     oracle: c14_oracle,
                 },
                 c14_seq_part(),
@@ -1277,7 +1283,7 @@ pub fn registry() -> Vec<PropDef> {
             id: "C16",
             parts: vec![Part {
                 name: "churn",
-                source: Source::Random { strategy: churn_strategy, cases: cases_fn!(400, 6000) },
+                source: Source::Random { strategy: churn_strategy, cases: cases_fn!(1500, 60000) },
                 oracle: c16_oracle,
             }],
             rule: "N in {1,2}: writers on the Full boundary, 1-3 threads doing 4-60 rounds of add_stream/drop, clone/drop, unsubscribe, single<->multi conversion, idle handles that never operate; every block freed through the crate's allocator shim is quarantined and every instrumented access or dereference is checked against the freed ranges; non-trivial = at least one deferred-reclamation batch was freed while another thread was inside an API call",
@@ -1288,17 +1294,17 @@ pub fn registry() -> Vec<PropDef> {
             parts: vec![
                 Part {
                     name: "teardown_seq",
-                    source: Source::Random { strategy: c17_seq_strategy, cases: cases_fn!(2000, 30000) },
+                    source: Source::Random { strategy: c17_seq_strategy, cases: cases_fn!(4000, 100000) },
                     oracle: c17_teardown_oracle,
                 },
                 Part {
                     name: "teardown_concurrent",
-                    source: Source::Random { strategy: c17_conc_strategy, cases: cases_fn!(1000, 15000) },
+                    source: Source::Random { strategy: c17_conc_strategy, cases: cases_fn!(2000, 60000) },
                     oracle: c17_teardown_oracle,
                 },
                 Part {
                     name: "churn",
-                    source: Source::RandomCostly { strategy: c17_churn_strategy, cases: cases_fn!(12, 40) },
+                    source: Source::RandomCostly { strategy: c17_churn_strategy, cases: cases_fn!(12, 48) },
                     oracle: c17_churn_oracle,
                 },
             ],
@@ -1309,10 +1315,15 @@ pub fn registry() -> Vec<PropDef> {
             id: "C18",
             parts: vec![Part {
                 name: "probes",
-                source: Source::Random { strategy: probe_strategy, cases: cases_fn!(2000, 40000) },
+                source: Source::Random { strategy: probe_strategy, cases: cases_fn!(6000, 200000) },
+                oracle: c18_oracle,
+            },
+            Part {
+                name: "probes_during_churn",
+                source: Source::Random { strategy: probe_churn_strategy, cases: cases_fn!(1500, 50000) },
                 oracle: c18_oracle,
             }],
-            rule: "traffic on busy/yielding queues; at generated points one thread freezes all others wherever they are and runs a single try_send / try_recv / try_recv_view alone; oracle = the call returns within 300 of its own scheduling points and never blocks; non-trivial = the probe ran while another thread was frozen strictly inside an API call",
+            rule: "traffic on busy/yielding queues, and handle/stream churn scenarios (enough retirements to open reclamation epochs, so that the manager locks are taken and the epoch signal is raised); at generated points one thread freezes all others wherever they are and runs a single try_send / try_recv / try_recv_view alone; oracle = the call returns within 300 of its own scheduling points and never blocks on a lock held by a frozen thread; non-trivial = the probe ran while another thread was frozen strictly inside an API call",
             assumptions: vec![SC_ASSUME, SAMPLE_ASSUME],
         },
         PropDef {
@@ -1320,7 +1331,7 @@ pub fn registry() -> Vec<PropDef> {
             parts: vec![
                 Part {
                     name: "seq_random",
-                    source: Source::Random { strategy: c05_random, cases: cases_fn!(2500, 40000) },
+                    source: Source::Random { strategy: c05_random, cases: cases_fn!(5000, 150000) },
                     oracle: c05_oracle,
                 },
                 Part {
@@ -1330,7 +1341,7 @@ pub fn registry() -> Vec<PropDef> {
                 },
                 Part {
                     name: "concurrent",
-                    source: Source::Random { strategy: c05_conc_strategy, cases: cases_fn!(800, 15000) },
+                    source: Source::Random { strategy: c05_conc_strategy, cases: cases_fn!(3000, 100000) },
                     oracle: c05_conc_oracle,
                 },
             ],
@@ -1341,7 +1352,7 @@ pub fn registry() -> Vec<PropDef> {
             id: "C07",
             parts: vec![Part {
                 name: "hangup",
-                source: Source::Random { strategy: hangup_strategy, cases: cases_fn!(1500, 30000) },
+                source: Source::Random { strategy: hangup_strategy, cases: cases_fn!(6000, 250000) },
                 oracle: c07_oracle,
             }],
             rule: "traffic profile with cloned/dropped senders and every receive entry point; oracle = per end report: no sender alive during the whole call, no accepted value undelivered and not in flight, end stable afterwards; non-trivial = an end report overlaps the last accepted send or the last sender drop",
@@ -1351,7 +1362,7 @@ pub fn registry() -> Vec<PropDef> {
             id: "C08",
             parts: vec![Part {
                 name: "wakeup",
-                source: Source::Random { strategy: wakeup_strategy, cases: cases_fn!(2000, 40000) },
+                source: Source::Random { strategy: wakeup_strategy, cases: cases_fn!(6000, 250000) },
                 oracle: c08_oracle,
             }],
             rule: "plain handles under every built-in wait strategy (busy, yielding, blocking; zero, small and default spin counts), N in {1,2,4}; consumers only use blocking entry points (recv, recv_view, blocking iterators), some leave after a few values, producers keep their sender alive until one of their values has been delivered; oracle = scheduler stuck state (deadlock, or no value-changing write for 4000 points) with a thread inside a blocking receive while its stream has an accepted undelivered value or every sender is gone; non-trivial = some blocking receive began before the value or hang-up it returned had happened",
@@ -1362,7 +1373,7 @@ pub fn registry() -> Vec<PropDef> {
             parts: vec![
                 Part {
                     name: "seq_random",
-                    source: Source::Random { strategy: c09_random, cases: cases_fn!(3000, 50000) },
+                    source: Source::Random { strategy: c09_random, cases: cases_fn!(6000, 200000) },
                     oracle: c09_oracle,
                 },
                 Part {
@@ -1378,7 +1389,7 @@ pub fn registry() -> Vec<PropDef> {
             id: "C12",
             parts: vec![Part {
                 name: "population",
-                source: Source::Random { strategy: population_strategy, cases: cases_fn!(1500, 30000) },
+                source: Source::Random { strategy: population_strategy, cases: cases_fn!(6000, 250000) },
                 oracle: c12_oracle,
             }],
             rule: "traffic profile whose threads clone/drop senders and receivers and convert single<->multi between operations; oracles of C01+C02+C03; non-trivial = at least two handle-population changes overlap a send/receive of another thread",
@@ -1389,12 +1400,12 @@ pub fn registry() -> Vec<PropDef> {
             parts: vec![
                 Part {
                     name: "seq",
-                    source: Source::Random { strategy: c13_strategy, cases: cases_fn!(2500, 40000) },
+                    source: Source::Random { strategy: c13_strategy, cases: cases_fn!(5000, 150000) },
                     oracle: c13_oracle,
                 },
                 Part {
                     name: "sink_race",
-                    source: Source::Random { strategy: c13_conc_strategy, cases: cases_fn!(1200, 20000) },
+                    source: Source::Random { strategy: c13_conc_strategy, cases: cases_fn!(4000, 150000) },
                     oracle: c13_conc_oracle,
                 },
             ],
@@ -1406,7 +1417,7 @@ pub fn registry() -> Vec<PropDef> {
             parts: vec![
                 Part {
                     name: "seq_random",
-                    source: Source::Random { strategy: c15_random, cases: cases_fn!(2500, 40000) },
+                    source: Source::Random { strategy: c15_random, cases: cases_fn!(5000, 150000) },
                     oracle: c15_oracle,
                 },
                 Part {
@@ -1416,7 +1427,7 @@ pub fn registry() -> Vec<PropDef> {
                 },
                 Part {
                     name: "concurrent",
-                    source: Source::Random { strategy: c15_conc_strategy, cases: cases_fn!(800, 15000) },
+                    source: Source::Random { strategy: c15_conc_strategy, cases: cases_fn!(3000, 100000) },
                     oracle: c15_conc_oracle,
                 },
             ],
@@ -1429,7 +1440,7 @@ pub fn registry() -> Vec<PropDef> {
 pub fn c14_seq_part() -> Part {
     Part {
         name: "seq_notify",
-        source: Source::Random { strategy: c15_random, cases: cases_fn!(2500, 40000) },
+        source: Source::Random { strategy: c15_random, cases: cases_fn!(5000, 150000) },
         oracle: c14_seq_oracle,
     }
 }
